@@ -335,7 +335,7 @@ static void enumerate(bool thorough)
     }
     // --- larger n: every "one irregular position" pattern over every base
     std::vector<int> ns;
-    for (int n = nExh + 1; n <= (thorough ? 32 : 10); n++)
+    for (int n = nExh + 1; n <= (thorough ? 32 : 16); n++)
         ns.push_back(n);
     if (thorough) {
         ns.push_back(100);
